@@ -309,7 +309,7 @@ class Experiment:
 
             try:
                 self._validate_schedule_order(schedule)
-            except ValueError as e:
+            except (ValueError, TypeError, KeyError, IndexError) as e:
                 message = "There is a schedule with an invalid order.\n"
                 message += "Invalid Schedule: [{}] {}\n".format(i, str(schedule))
                 message += "Detail: {}".format(e.args[0])
